@@ -40,6 +40,8 @@ def gen_case(rng):
         form = rng.random()
         if cls and form < 0.25:
             lines.append('RESI %s %d %d' % (cls, num, rng.choice([7, 8, 9, 30, 1000])))      # class number alias: the alias is not the residue number
+        elif cls and form < 0.4:
+            lines.append('RESI %s:%d %s' % (rng.choice('AB'), num, cls))       # chain ID in front of the number (RESI A:12 ALA)
         elif cls and form < 0.6:
             lines.append('RESI %d %s' % (num, cls))
         else:
